@@ -86,3 +86,19 @@ def _whittaker(spec, model):
     ok = list(res['loading']) == want_l and numpy.allclose(res['enthalpy_sorption'], want_h, rtol=1e-9)
     return {'confirmed': not ok, 'observed': {'loading': list(res['loading']), 'enthalpy': list(map(float, res['enthalpy_sorption']))},
             'expected': {'loading': want_l, 'enthalpy': want_h}}
+
+
+@replayer('c19.order')
+def _order(spec, model):
+    """isotherms generated from a known isosteric enthalpy (20 kJ/mol), handed over in every order of the temperatures"""
+    import itertools
+    from pygaps.characterisation.isosteric_enth import isosteric_enthalpy
+    bad = []
+    for Ts in list(itertools.permutations([280.0, 300.0, 330.0])) + [(320.0, 280.0)]:
+        try:
+            a = isosteric_enthalpy([_mi(T) for T in Ts], loading_points=[1.0, 2.5])['isosteric_enthalpy']
+            if not numpy.allclose(a, [20.0, 20.0], rtol=1e-6):
+                bad.append({'temperatures': list(Ts), 'enthalpy': list(map(float, a))})
+        except Exception as exc:
+            bad.append({'temperatures': list(Ts), 'error': f"{type(exc).__name__}: {exc}"[:120]})
+    return {'confirmed': bool(bad), 'observed': bad[:3], 'expected': '20 kJ/mol for every order'}
